@@ -33,6 +33,7 @@ structure CertRec where
   epoch : Nat
   parent : Option Nat      -- id of the parent certificate
   avk : Nat                -- epoch whose `current` signer set gave the aggregate key (ghost)
+  signers : List Nat       -- `metadata.signers`
 deriving Repr, DecidableEq
 
 /-- a row of `single_signature`: `party` is the label it is stored under, `sigma` identifies the
@@ -214,6 +215,10 @@ def handOver (E : Env) (s : St) (e : Nat) : St × Bool :=
 
 /-! ### certificate creation -/
 
+/-- `metadata.signers`: the current signers whose party id occurs among the stored signatures -/
+def metadataSigners (s : St) (e : Nat) : List Nat :=
+  (signersOf s.regs (s.es.getD 0 - 1)).filter (fun p => (s.sigs.filter (·.entity = e)).any (·.party = p))
+
 /-- the new certificate `create_certificate` would insert, if every test passes -/
 def newCert (E : Env) (s : St) (e : Nat) : Option CertRec :=
   match findOm e s.oms with
@@ -224,7 +229,8 @@ def newCert (E : Env) (s : St) (e : Nat) : Option CertRec :=
       | none => none
       | some m =>
         if E.quorum e (s.sigs.filter (·.entity = e)) then
-          some { id := s.certs.length, entity := some e, epoch := o.epoch, parent := some m.id, avk := s.es.getD 0 }
+          some { id := s.certs.length, entity := some e, epoch := o.epoch, parent := some m.id, avk := s.es.getD 0,
+                 signers := metadataSigners s e }
         else none
 
 def addSignedEntity (ses : List (Nat × Nat)) (e id : Nat) : List (Nat × Nat) :=
@@ -239,7 +245,8 @@ def createCertificate (E : Env) (s : St) (e : Nat) : St :=
       | none => s
       | some m =>
         if E.quorum e (s.sigs.filter (·.entity = e)) then
-          { s with certs := s.certs ++ [{ id := s.certs.length, entity := some e, epoch := o.epoch, parent := some m.id, avk := s.es.getD 0 }],
+          { s with certs := s.certs ++ [{ id := s.certs.length, entity := some e, epoch := o.epoch, parent := some m.id,
+                                             avk := s.es.getD 0, signers := metadataSigners s e }],
                    oms := updOm e (fun o => { o with certified := true }) s.oms,
                    ses := addSignedEntity s.ses e s.certs.length,
                    rt := match s.rt with | .signing ep _ => .ready ep | r => r }
@@ -453,7 +460,7 @@ def step (E : Env) (s : St) : Event → St
 /-- state right after the genesis certificate of epoch `g` has been stored, with `n` fixture signers
 recorded under the keys `g-1` and `g` (`init_state_from_fixture_for_genesis`) -/
 def init (n g : Nat) : St :=
-  { rt := .idle none, oms := [], certs := [{ id := 0, entity := none, epoch := g, parent := none, avk := g }],
+  { rt := .idle none, oms := [], certs := [{ id := 0, entity := none, epoch := g, parent := none, avk := g, signers := [] }],
     sigs := [], cleaned := 0, seen := 0, buf := [], ses := [],
     regs := (List.range n).map (fun p => (g - 1, p)) ++ (List.range n).map (fun p => (g, p)),
     es := none, round := none }
